@@ -351,6 +351,13 @@ func rigSchedules(variant string) []rigSchedule {
 			}
 		}
 	}
+	// L. a sharer upgrades (stores to) its Shared line while another core's read miss of that line is in
+	// flight, at every point of the miss; the reader then reads the stored word (2 cores; 3 cores with a
+	// second sharer)
+	for _, d := range jgrid {
+		out = append(out, rigSchedule{Variant: variant, Cores: 2, Events: []rigEvent{{0, 0, "R", 64}, {g, 1, "R", 68}, {g + d, 0, "W", 72}, {5 * g, 1, "R", 72}}})
+		out = append(out, rigSchedule{Variant: variant, Cores: 3, Events: []rigEvent{{0, 0, "R", 64}, {1, 2, "R", 76}, {g, 1, "R", 68}, {g + d, 0, "W", 72}, {5 * g, 1, "R", 72}, {5*g + 1, 2, "R", 72}}})
+	}
 	// K. capacity eviction of a dirty line: core 0 writes 17 lines one after the other (the 17th displaces the
 	// first, which is Modified, and writes it back); another core reads / writes that line at every point of a
 	// sweep around the write-back
